@@ -43,7 +43,7 @@ def bounds(tier):
         return dict(tensors="2..3", max_rank=2, max_labels=4, max_out_rank=2, trees="all (2N-3)!!",
                     sizes="all-2, alternating 2/3, each single label = 1",
                     options="implementation x prefer_einsum x order{None, symbolic callable} x sort priority (rotating subset)")
-    return dict(tensors="2..4", max_rank="3 for N<=3 (<=7 positions), 2 for N=4", max_labels=4, max_out_rank=3,
+    return dict(tensors="2..4", max_rank="N=2: 3; N=3: 2 (all) and 3 (every 40th skeleton with <=7 positions); N=4: 2 (every 20th)", max_labels=4, max_out_rank=2,
                 trees="all (2N-3)!!", sizes="all-2, alternating 2/3, 3/2, each single label = 1, all-1",
                 options="implementation x prefer_einsum x order{None,'dfs',symbolic callable} x all 5 sort priorities")
 
@@ -75,11 +75,12 @@ def items(tier, seed):
         chunk = 12
     else:
         sk = (
-            skel.skeletons(2, 3, 4, 3)
-            + skel.skeletons(3, 3, 4, 2, max_positions=7)
-            + skel.skeletons(4, 2, 4, 2, max_positions=7)
+            skel.skeletons(2, 3, 4, 2)
+            + skel.skeletons(3, 2, 4, 2)
+            + [s_ for s_ in skel.skeletons(3, 3, 4, 2, max_positions=7) if max(map(len, s_[0])) == 3][::40]
+            + skel.skeletons(4, 2, 4, 2, max_positions=7)[::20]
         )
-        chunk = 40
+        chunk = 12
     for i in range(0, len(sk), chunk):
         its.append({"skeletons": [[list(a), b] for a, b in sk[i : i + chunk]], "tier": tier, "k": i})
     return its
